@@ -152,6 +152,39 @@ def face_hdelta(g, ax, hi):
     return np.asarray(h[tuple(sl)] * delta, dtype=float).reshape(side_shape(g, ax) or (1,))
 
 
+class _FaceRecorder:
+    """Stands in for a BoundaryFace in set_side(): records the coefficient arrays intended for one side, independently
+    of the library's container (which a defect might wire to another side)."""
+
+    def __init__(self, shape):
+        self._a = np.ones(shape)
+        self._b = np.zeros(shape)
+        self._c = np.zeros(shape)
+
+    def _set(self, name, val):
+        arr = getattr(self, name)
+        arr[...] = val
+
+    a = property(lambda self: self._a, lambda self, v: self._set("_a", v))
+    b = property(lambda self: self._b, lambda self, v: self._set("_b", v))
+    c = property(lambda self: self._c, lambda self, v: self._set("_c", v))
+
+
+def intended_coefficients(g, kinds, cmul=1.0):
+    """{(axis, hi): (a, b, c)} as make_bc assigns them, recorded outside the library."""
+    shapes = pf.BoundaryConditions(g.mesh)
+    amul = 2.0 ** g.spec.get("scale", 0)
+    out = {}
+    for ax in range(g.d):
+        for hi in (0, 1):
+            rec_bc = type("R", (), {})()
+            rec = _FaceRecorder(np.asarray(getattr(shapes, U.SIDES[ax][hi])._a).shape)
+            setattr(rec_bc, U.SIDES[ax][hi], rec)
+            set_side(g, rec_bc, ax, hi, kinds[2 * ax + hi], tag=200 + 10 * (2 * ax + hi), amul=amul, cmul=cmul)
+            out[(ax, hi)] = (rec._a, rec._b, rec._c)
+    return out
+
+
 def make_bc(g, kinds, per, cmul=1.0, pmode="lo"):
     bc = pf.BoundaryConditions(g.mesh)
     amul = 2.0 ** g.spec.get("scale", 0)
@@ -164,7 +197,7 @@ def make_bc(g, kinds, per, cmul=1.0, pmode="lo"):
     return bc
 
 
-def check_boundary(g, v, per, res, seen, label, kinds):
+def check_boundary(g, v, per, res, seen, label, kinds, intended=None):
     """All boundary faces of variable v against the reference relation (one numpy expression
     per side; written independently of the library's ghost formulas: it evaluates the
     relation itself, never solves for the ghost value)."""
@@ -176,9 +209,20 @@ def check_boundary(g, v, per, res, seen, label, kinds):
         for hi in (0, 1):
             bf = getattr(v.BCs, U.SIDES[ax][hi])
             sh = side_shape(g, ax) or (1,)
-            A = np.asarray(bf._a, dtype=float).reshape(sh)
-            B = np.asarray(bf._b, dtype=float).reshape(sh)
-            C = np.asarray(bf._c, dtype=float).reshape(sh)
+            if intended is not None:        # the arrays that were set for THIS side (not what the object now says)
+                A, B, C = (np.asarray(x, dtype=float).reshape(sh) for x in intended[(ax, hi)])
+                if not (np.array_equal(A, np.asarray(bf._a, dtype=float).reshape(sh)) and np.array_equal(B, np.asarray(bf._b, dtype=float).reshape(sh))
+                        and np.array_equal(C, np.asarray(bf._c, dtype=float).reshape(sh))):
+                    k = "C03:coefficients_read_back:%s:axis=%d:%s" % (g.cls, ax, "hi" if hi else "lo")
+                    if k not in seen:
+                        seen.add(k)
+                        F.append({"key": k, "msg": "%s on %s: the coefficients read back from the %s side of axis %d are not the ones that were set for it"
+                                                   % (label, U.spec_id(g.spec), "high" if hi else "low", ax),
+                                  "detail": {"grid": U.spec_id(g.spec), "kinds": list(kinds), "periodic": list(per)}})
+            else:
+                A = np.asarray(bf._a, dtype=float).reshape(sh)
+                B = np.asarray(bf._b, dtype=float).reshape(sh)
+                C = np.asarray(bf._c, dtype=float).reshape(sh)
             sl_in = [slice(1, -1)] * g.d
             sl_gh = [slice(1, -1)] * g.d
             sl_op = [slice(1, -1)] * g.d
@@ -406,7 +450,7 @@ def run_case(case):
                 if not np.all(np.isfinite(np.asarray(v._value)[tuple(slice(1, -1) for _ in range(g.d))])):
                     res["precond_failed"] = res.get("precond_failed", 0) + 1
                     continue
-                check_boundary(g, v, per, res, seen, op, kinds)
+                check_boundary(g, v, per, res, seen, op, kinds, intended=intended_coefficients(g, kinds, mag))
                 if fname == "generic":
                     check_plotprofile(g, v, res, seen, op)
                     check_bcrows(g, v, per, res, seen, op, kinds)
